@@ -369,6 +369,43 @@ func raceClient(c *Ctx) {
 		iters = 2000
 	}
 	var total int64
+	// first, on one goroutine: a transaction is in flight, Close; its handler is told "closed" and, to make sure, closes
+	// the client itself (from inside the outer Close, on the same goroutine). The inner call reports ErrClientClosed, the
+	// outer one finishes. A Close that takes 30 s (normally microseconds) is taken as one that never returns.
+	for _, withFallback := range []bool{false, true} {
+		total++
+		conn := &raceConn{in: make(chan []byte, 4), closed: make(chan struct{})}
+		opts := []stun.ClientOption{stun.WithClock(&raceClock{now: time.Unix(1700000000, 0)}), stun.WithCollector(&raceCollector{}), stun.WithNoRetransmit}
+		if withFallback {
+			opts = append(opts, stun.WithHandler(func(stun.Event) {}))
+		}
+		cl, err := stun.NewClient(conn, opts...)
+		if err != nil {
+			c.Fail("NewClient: %v", err)
+		}
+		var inner error
+		innerCalled := false
+		_ = cl.Start(stun.MustBuild(stun.BindingRequest, stun.NewTransactionIDSetter([12]byte{0xC1, 0x05})), func(e stun.Event) {
+			if e.Error != nil && !innerCalled {
+				innerCalled = true
+				inner = cl.Close()
+			}
+		})
+		done := make(chan error, 1)
+		go func() { done <- cl.Close() }()
+		select {
+		case outer := <-done:
+			if outer != nil || !innerCalled || !errors.Is(inner, stun.ErrClientClosed) {
+				c.Res.Violations = append(c.Res.Violations, raceViolation("close-from-its-own-handler", fmt.Sprintf("Close with a transaction in flight whose handler calls Close: outer Close = %v, handler called = %v, inner Close = %v (want nil, true, ErrClientClosed)", outer, innerCalled, inner)))
+				racePassFinish(c, total, "")
+				return
+			}
+		case <-time.After(30 * time.Second):
+			c.Res.Violations = append(c.Res.Violations, raceViolation("close-from-its-own-handler/never-returns", "Close with a transaction in flight whose handler (told that the client is closing) calls Close itself: the outer Close has not returned after 30 s"))
+			racePassFinish(c, total, "")
+			return
+		}
+	}
 	for it := 0; it < iters; it++ {
 		if c.Expired() {
 			break
@@ -486,6 +523,33 @@ func raceHMAC(c *Ctx) {
 					return
 				}
 			}
+		}
+	}
+	// the pool behind MESSAGE-INTEGRITY: after integrity operations that fail and succeed in every order (each takes an
+	// instance and returns it once), two instances taken at the same time are two instances
+	for order := 0; order < 8; order++ {
+		total++
+		key := stun.MessageIntegrity(patBytes(20, 60+order))
+		m := stun.MustBuild(stun.BindingRequest, stun.NewTransactionIDSetter([12]byte{0x18, byte(order)}), stun.NewUsername("u"), key)
+		for step := 0; step < 3; step++ {
+			if order>>step&1 == 1 {
+				_ = stun.MessageIntegrity("not the key").Check(m)
+			} else {
+				_ = key.Check(m)
+			}
+		}
+		k1, k2, msg := patBytes(20, 1), patBytes(33, 2), patBytes(50, 3)
+		h1 := hmacx.AcquireSHA1(k1)
+		h2 := hmacx.AcquireSHA1(k2)
+		h1.Write(msg)
+		h2.Write(msg)
+		g1, g2 := h1.Sum(nil), h2.Sum(nil)
+		hmacx.PutSHA1(h1)
+		hmacx.PutSHA1(h2)
+		if string(g1) != string(ref.HMACSHA1(k1, msg)) || string(g2) != string(ref.HMACSHA1(k2, msg)) {
+			c.Res.Violations = append(c.Res.Violations, raceViolation("wrong-digest/two-instances-after-integrity-checks", fmt.Sprintf("after three MessageIntegrity.Check calls (bit i of %d set: call i with a wrong key), two pooled instances taken at the same time with different keys: digests right = %v, %v", order, string(g1) == string(ref.HMACSHA1(k1, msg)), string(g2) == string(ref.HMACSHA1(k2, msg)))))
+			racePassFinish(c, total, "")
+			return
 		}
 	}
 	// the two pools are two pools: one key through both, in both orders (a long-term key is used with SHA-1 by RFC
